@@ -391,6 +391,9 @@ func (r *Raft) restore() error {
 // the first time and there is no existing configuration. This should
 // only be called on a single, voting member of the cluster.
 func (r *Raft) Bootstrap(configuration map[string]string) error {
+	r.mu.Lock()
+	defer r.mu.Unlock()
+
 	if address, ok := configuration[r.id]; !ok || r.address != address {
 		return errors.New("configuration must contain this node")
 	}
